@@ -221,6 +221,18 @@ pub fn dyadic_weights(rng: &mut Rng, n: usize, wild: bool) -> Vec<f64> {
             k[others[0]] += 16;
             k[others[others.len() - 1]] -= 16;
         }
+    } else if n >= 2 && rng.chance(0.2) {
+        // one component exactly 0 (most often the first), the rest a composition of 64
+        let zero = if rng.chance(0.6) { 0 } else { rng.below(n) };
+        let others: Vec<usize> = (0..n).filter(|i| *i != zero).collect();
+        for _ in 0..64 {
+            let i = *rng.pick(&others);
+            k[i] += 1;
+        }
+        if wild && others.len() >= 2 {
+            k[others[0]] += 40;
+            k[others[1]] -= 40;
+        }
     } else if wild {
         let mut rest = 64i64;
         for item in k.iter_mut().take(n - 1) {
